@@ -73,10 +73,14 @@ class Model:
                 return Batch(part_name, ps)
 
         PartFlowController = __import__('simprocesd.model.factory_floor', fromlist=['PartFlowController']).PartFlowController
+        shared = []          # 'sharedups': the caller builds every upstream list in one scratch list it keeps changing
         for d in cfg['devs']:
             k = d['kind']
             # a device with an upstream that does not exist yet is wired after all devices were created
             ups = [] if (d.get('late') or k in ('ginput', 'goutput')) else [self.dev[u] for u in d.get('ups', [])]
+            if cfg.get('sharedups'):
+                shared[:] = ups
+                ups = shared
             name = None if cfg.get('noname') else 'd%d' % d['id']      # default names contain the asset id
             if k == 'source':
                 budget = float('inf') if d.get('budget', INF) == INF else d['budget']
@@ -140,6 +144,7 @@ class Model:
                 o._vkind = k
                 self.names[str(o.name)] = 'd%d' % d['id']
                 self._callbacks(o, d)
+        shared[:] = []
         kinds = {x['id']: x['kind'] for x in cfg['devs']}
         for d in cfg['devs']:
             # devices whose upstream is a group input were connected by the group itself
